@@ -12,3 +12,4 @@ open('/verif/baseline/%s.keys'%p,'w').write('\n'.join(keys)+'\n')
 print(p,len(keys))
 PY
 done
+bin/trzszlint vars > baseline/vars.json
